@@ -173,10 +173,10 @@ Proof.
 Qed.
 
 (* ---------------------------------------------------------------- one row *)
-Lemma cstep_ok s cr s' :
-  (cr_uuid cr <> [] -> GP (cr_uuid cr)) -> Inv s -> cstep fresh s cr = Ok s' -> Inv s'.
+Lemma cstep_read_ok s cr s' :
+  (cr_uuid cr <> [] -> GP (cr_uuid cr)) -> Inv s -> cstep_read fresh s cr = Ok s' -> Inv s'.
 Proof.
-  intros Hgiven Hi. unfold cstep. destruct (r_type (cr_row cr)) as [cls payloads dec0|tgts| | | | |] eqn:Et.
+  intros Hgiven Hi. unfold cstep_read. destruct (r_type (cr_row cr)) as [cls payloads dec0|tgts| | | | |] eqn:Et.
   - (* node rows *)
     set (row_action := if is_basic_kind (cr_kind cr) then match payloads with p :: _ => Some p | [] => None end else None).
     destruct (match row_action with Some p => ([(fresh (cs_next s), p)], S (cs_next s)) | None => ([], cs_next s) end) as [acts n1] eqn:Ea.
@@ -275,9 +275,25 @@ Proof.
     intros H. injection H as <-. apply Inv_end_block; assumption.
 Qed.
 
+(* the row as written: read (padding edges), then applied *)
+Lemma cstep_ok s cr s' :
+  (cr_uuid cr <> [] -> GP (cr_uuid cr)) -> Inv s -> cstep fresh s cr = Ok s' -> Inv s'.
+Proof. intros Hgiven Hi. unfold cstep. apply cstep_read_ok; [exact Hgiven|exact Hi]. Qed.
+
 (* every given `_nodeId` of the rows enjoys GP *)
 Definition given_ok (rows : list crow) : Prop :=
   forall cr, In cr rows -> cr_uuid cr <> [] -> GP (cr_uuid cr).
+
+Theorem crun_read_Inv rows s : given_ok rows -> crun_read fresh rows = Ok s -> Inv s.
+Proof.
+  unfold crun_read. intros Hg. assert (G : forall s0, Inv s0 -> foldM (cstep_read fresh) rows s0 = Ok s -> Inv s).
+  { induction rows as [|r rest IH]; intros s0 H0; cbn.
+    - intros H. injection H as <-. exact H0.
+    - destruct (cstep_read fresh s0 r) as [s1|x] eqn:E; [|discriminate].
+      apply IH; [intros cr Hcr; apply Hg; right; exact Hcr|].
+      eapply cstep_read_ok; [apply Hg; left; reflexivity|exact H0|exact E]. }
+  apply G, Inv_cs0.
+Qed.
 
 Theorem crun_Inv rows s : given_ok rows -> crun fresh rows = Ok s -> Inv s.
 Proof.
